@@ -305,7 +305,9 @@ def gen_scratch(prop, job, dest, t1=True, extra_tests=None, cap=None, release=Fa
             if t1 and sl.get('t1', True):
                 s = t1_rewrite(s, 'crate::vcoll', sl['from'])
                 need_vcoll = True
-            for a, b in sl.get('subst', []):
+            if t1 and sl.get('t1_vec'):
+                s = t1_vec_rewrite(s, sl['from'])
+            for a, b in (sl.get('subst', []) if t1 else []):
                 if a not in s:
                     raise Inconclusive('slice %s: expected text %r not found' % (sl['from'], a))
                 s = s.replace(a, b)
@@ -328,7 +330,10 @@ def gen_scratch(prop, job, dest, t1=True, extra_tests=None, cap=None, release=Fa
         if ex:
             src = read(os.path.join(REPO, ex['from']))
             files_used.append(ex['from'])
-            txt = '// extracted verbatim from %s by vk (T3)\n%s\n%s' % (ex['from'], ex.get('prelude', ''), extract_fns(src, ex['fns'], ex['from']))
+            prelude = ex.get('prelude', '')
+            if not t1:
+                prelude = prelude.replace('shared::vcoll::', 'std::collections::').replace('crate::vcoll::', 'std::collections::')
+            txt = '// extracted verbatim from %s by vk (T3)\n%s\n%s' % (ex['from'], prelude, extract_fns(src, ex['fns'], ex['from']))
             write(os.path.join(dest, 'hx', 'src', 'extracted.rs'), txt)
             lib += 'include!("extracted.rs");\n'
         for hf in hx.get('files', []):
